@@ -52,6 +52,9 @@ impl Space for Placement {
         if term == 1 && (host == 1 || dirs.iter().any(|d| d.is_existing())) {
             return ctx.reject();
         }
+        if host == 2 && term != 0 {
+            return ctx.reject(); // bare #[parent] + ..update / return is KF-C17-01
+        }
         if !has.iter().any(|x| *x) && !vars && term == 0 {
             return ctx.reject();
         }
@@ -85,7 +88,7 @@ impl Space for Placement {
         match host {
             0 => src.push_str("struct S { a: i32, #[ghost({ 5 })] b: i32 }\n"),
             1 => src.push_str("#[ghosts(Y: { S::A })]\nenum S { A, B(i32), #[ghost({ T::A })] C }\n"),
-            _ => src.push_str("#[ghosts(g: { 1 })]\nstruct S { a: i32, #[parent] p: P }\n"),
+            _ => src.push_str("struct S { a: i32, #[parent] p: P }\n"),
         }
         let tags = vec![format!("name={}", name), format!("host={}", ["struct", "enum", "struct-parent"][host]), format!("attrs={:?}", has), format!("vars={}", vars), format!("term={}", ["none", "update", "return"][term])];
         Some(PCase { input: src, tags, name: name.to_string(), has })
@@ -114,8 +117,11 @@ impl Space for Placement {
         };
         let impls = match analyse(&ts) {
             OutIR::Impls(v, _) => v,
-            OutIR::Unparsable(_) => {
-                rep.count("unparsable(C17)", 1);
+            OutIR::Unparsable(e) => {
+                // an attribute / binding spliced into the wrong place typically makes the impl unparsable
+                let mut f = fail("placement", choices, &c.input, &c.tags, "unparsable-output", format!("generated code does not parse: {}", e));
+                f.observed = trunc(&crate::xp::canon(&ts), 700);
+                rep.fail(f);
                 return;
             }
         };
